@@ -4,6 +4,7 @@ import FrappyProofs.Lemmas.NoEol
 import FrappyProofs.Lemmas.Senders
 import FrappyProofs.Lemmas.Indep
 import FrappyProofs.Lemmas.PeerGone
+import FrappyModel.Wire.ErrText
 import FrappyModel.Generated.C07
 /-
 C07 — property theorems (nothing but property theorems and their non-vacuity examples).
@@ -166,7 +167,7 @@ theorem reply_is_lineReply (T : Tables) (L : Lib J) (d : Disp σ J) :
     · exact reply_is_lineReply T L d ls _ o h
 
 /-- the reply to one line belongs to it -/
-theorem lineReply_fits (T : Tables) (L : Lib J) (d : Disp σ J) (facts : TableFacts T) (hd : DispFits T L d)
+theorem lineReply_fits (T : Tables) (L : Lib J) (d : Disp σ J) (facts : TableFacts T) (hd : DispAnswers T d)
     (st : σ) (line : Bytes) :
     let m := lineReply T L d st line
     FitsOk T (reqOf T line) m.action (m.spec.getD [])
@@ -217,7 +218,7 @@ theorem lineReply_fits (T : Tables) (L : Lib J) (d : Disp σ J) (facts : TableFa
         rw [hm, hreq]
         refine ⟨by rw [← ht.1, hhelp]; exact facts.help_reply, Or.inr (Or.inl ⟨Or.inr (by rw [← ht.1, hhelp]), rfl⟩)⟩
       · simp only [hhelp, ↓reduceIte] at hm
-        obtain ⟨_, hres⟩ := hd st t
+        have hres := hd st t
         have hecho : ∀ cls, cls ∈ T.errorClasses →
             FitsErr T (reqOf T line) (T.errorPrefix ++ t.action) (t.spec.getD []) cls := by
           intro cls hc
@@ -229,7 +230,7 @@ theorem lineReply_fits (T : Tables) (L : Lib J) (d : Disp σ J) (facts : TableFa
           left
           rw [hm, hreq]
           simp only [resultReply]
-          have := hres.2
+          have := hres
           rw [ht.1, ht.2] at this
           exact this
         | secop cls =>
@@ -246,10 +247,11 @@ theorem lineReply_fits (T : Tables) (L : Lib J) (d : Disp σ J) (facts : TableFa
           exact ⟨T.handlerErrorClass, by rw [hm]; rfl, by rw [hm]; exact hecho _ facts.handler_class⟩
 
 /-- **reply_action_fits** — for every byte stream and segmentation, with a dispatcher that does its
-part (`DispFits`): every reply carries the reply action `REQUEST2REPLY` gives for its request line
+part (`DispAnswers`: positive replies belong to the request, raised SECoP classes are classes of errors.py; implied by
+`DispFits` — `dispFits_answers` — and proved for the dispatcher model — `dispatcher_reply_action_fits`): every reply carries the reply action `REQUEST2REPLY` gives for its request line
 (or the identification reply) with the request's specifier, or it is `error_` + the request's action
 with the request's specifier echoed and … -/
-theorem reply_action_fits (T : Tables) (L : Lib J) (d : Disp σ J) (facts : TableFacts T) (hd : DispFits T L d)
+theorem reply_action_fits (T : Tables) (L : Lib J) (d : Disp σ J) (facts : TableFacts T) (hd : DispAnswers T d)
     (st : σ) (chunks : List Bytes) :
     ∀ o ∈ replies (serve T L d [] st chunks).outs,
       FitsOk T (reqOf T o.req) o.msg.action (o.msg.spec.getD [])
@@ -263,7 +265,7 @@ theorem reply_action_fits (T : Tables) (L : Lib J) (d : Disp σ J) (facts : Tabl
 
 /-- **error_class_is_secop** — … every error reply names an error class of errors.py: the class of
 the SECoP error the dispatcher raised, or the handler's own `InternalError` -/
-theorem error_class_is_secop (T : Tables) (L : Lib J) (d : Disp σ J) (facts : TableFacts T) (hd : DispFits T L d)
+theorem error_class_is_secop (T : Tables) (L : Lib J) (d : Disp σ J) (facts : TableFacts T) (hd : DispAnswers T d)
     (st : σ) (chunks : List Bytes) :
     ∀ o ∈ replies (serve T L d [] st chunks).outs,
       ¬ FitsOk T (reqOf T o.req) o.msg.action (o.msg.spec.getD []) →
@@ -272,6 +274,19 @@ theorem error_class_is_secop (T : Tables) (L : Lib J) (d : Disp σ J) (facts : T
   rcases reply_action_fits T L d facts hd st chunks o ho with h | ⟨c, hc, hf⟩
   · exact absurd h hnot
   · exact ⟨c, hf.2.2, hc⟩
+
+/-- **dispatcher_reply_action_fits** — `reply_action_fits` with no hypothesis on the dispatcher left: the handler with the
+dispatcher model behind it, over any node whose SECoP errors carry class names of errors.py (`NodeClasses`), on any byte
+stream in any segmentation — every reply is the reply action of its request line with the request's specifier, or
+`error_` + action with the specifier echoed and a SECoP error class.  Requests with specifiers of any characters included. -/
+theorem dispatcher_reply_action_fits {ν κ : Type} (L : Lib J) (N : NodeIf ν κ J) (hN : NodeClasses tables.errorClasses N)
+    (st : ν × κ) (chunks : List Bytes) :
+    ∀ o ∈ replies (serve tables L (dispatch tables dtables N) [] st chunks).outs,
+      FitsOk tables (reqOf tables o.req) o.msg.action (o.msg.spec.getD [])
+      ∨ ∃ c, o.msg.data = some (L.errReport c) ∧ FitsErr tables (reqOf tables o.req) o.msg.action (o.msg.spec.getD []) c :=
+  reply_action_fits tables L _ generated_table_facts
+    (dispatch_answers tables dtables N hN (by decide)) st chunks
+
 
 end loop
 
@@ -477,10 +492,11 @@ theorem lines_whole_of_noEol (L : Lib J) (outs : List (Out J))
 variable {σ : Type}
 
 /-- no frame the request loop sends contains a newline of its own: action and specifier of a reply are
-cut out of a request line (which has none) or come from a well-formed triple of the dispatcher,
+cut out of a request line (which has none) or come from the dispatcher, of which only `DispNoEol` is assumed
+(`dispFits_noEol`: a dispatcher satisfying `DispFits` does; `dispatcher_no_newline`: the dispatcher model does),
 `json.dumps` emits none (`LibLaws.dumps_noEol`), the help line numbers are digits -/
 theorem frames_no_newline (T : Tables) (L : Lib J) (d : Disp σ J) (laws : LibLaws L) (tf : TableNoEol T)
-    (hd : DispFits T L d) (st : σ) (chunks : List Bytes) :
+    (hd : DispNoEol d) (st : σ) (chunks : List Bytes) :
     ∀ o ∈ (serve T L d [] st chunks).outs, EOL ∉ rstripSp (joined L o.msg) := by
   intro o ho hmem
   rw [(serve_eq_serveLines T L d chunks [] st).1] at ho
@@ -490,10 +506,69 @@ theorem frames_no_newline (T : Tables) (L : Lib J) (d : Disp σ J) (laws : LibLa
 /-- **lines_whole**, one sender — what the handler thread sends for any stream and segmentation, cut at
 its newlines, is exactly the sequence of its frames -/
 theorem lines_whole_sequential (T : Tables) (L : Lib J) (d : Disp σ J) (laws : LibLaws L) (tf : TableNoEol T)
-    (hd : DispFits T L d) (st : σ) (chunks : List Bytes) :
+    (hd : DispNoEol d) (st : σ) (chunks : List Bytes) :
     IsFraming (wire L (serve T L d [] st chunks).outs).flatten
       ((serve T L d [] st chunks).outs.map (fun o => rstripSp (joined L o.msg))) [] :=
   lines_whole_of_noEol L _ (frames_no_newline T L d laws tf hd st chunks)
+
+/-- what the node sends to a connection while a request is handled (updates, log messages) carries module, parameter and
+level names without newline -/
+def NodeEventsNoEol {ν κ : Type} (N : NodeIf ν κ J) : Prop := ∀ nu k t, ∀ m ∈ N.events nu k t, NoEolTriple m
+
+/-- the reply actions contain no newline (generated tables: `generated_reply_noEol`) -/
+def TableReplyNoEol (T : Tables) : Prop := EOL ∉ T.identReply ∧ ∀ p ∈ T.request2reply, EOL ∉ p.2
+
+theorem generated_reply_noEol : TableReplyNoEol tables := ⟨by decide, by decide⟩
+
+/-- **dispatcher_no_newline** — the `DispNoEol` hypothesis of `frames_no_newline`, `lines_whole`, `peer_gone_sound`,
+`peer_gone_partial` is a property of the dispatcher model, for every node: the reply action comes from the table, the
+specifier is the request's (or `.`), whatever characters it consists of -/
+theorem dispatcher_no_newline {ν κ : Type} (T : Tables) (D : DTables) (N : NodeIf ν κ J) (tr : TableReplyNoEol T)
+    (hN : NodeEventsNoEol N) : DispNoEol (dispatch T D N) := by
+  intro st t ht
+  refine ⟨fun m hm => hN st.1 st.2 t m hm, fun r hr => ?_⟩
+  simp only [dispatch] at hr
+  by_cases hid : t.action = T.identRequest
+  · simp only [hid, ↓reduceIte, DispResult.ok.injEq] at hr
+    subst hr
+    exact ⟨tr.1, by simp⟩
+  · simp only [hid, ↓reduceIte] at hr
+    cases hl : T.request2reply.lookup t.action with
+    | none => simp [hl] at hr
+    | some reply =>
+      simp only [hl] at hr
+      obtain ⟨h1, h2⟩ := handleAction_ok T D N reply st.1 t r hr
+      have hmem : (t.action, reply) ∈ T.request2reply := by
+        have : ∀ (l : List (Bytes × Bytes)), l.lookup t.action = some reply → (t.action, reply) ∈ l := by
+          intro l
+          induction l with
+          | nil => simp
+          | cons p ps ih =>
+            obtain ⟨a, b⟩ := p
+            simp only [List.lookup_cons]
+            split
+            · rename_i heq
+              intro hb
+              simp only [Option.some.injEq] at hb
+              have ha : t.action = a := by simpa using heq
+              simp [ha, hb]
+            · intro hb
+              exact List.mem_cons_of_mem _ (ih hb)
+        exact this _ hl
+      refine ⟨by rw [h1]; exact tr.2 _ hmem, ?_⟩
+      rcases h2 with h2 | ⟨_, _, h2⟩
+      · rw [h2]; exact ht.2
+      · rw [h2]; decide
+
+/-- **dispatcher_lines_whole** — the handler thread with the dispatcher model behind it, over any node whose events carry
+names without newline, on any byte stream in any segmentation: what it sends, cut at the newlines, is exactly its frames —
+no hypothesis on the dispatcher left, and no assumption on the characters of echoed specifiers -/
+theorem dispatcher_lines_whole {ν κ : Type} (L : Lib J) (N : NodeIf ν κ J) (laws : LibLaws L) (hN : NodeEventsNoEol N)
+    (st : ν × κ) (chunks : List Bytes) :
+    IsFraming (wire L (serve tables L (dispatch tables dtables N) [] st chunks).outs).flatten
+      ((serve tables L (dispatch tables dtables N) [] st chunks).outs.map (fun o => rstripSp (joined L o.msg))) [] :=
+  lines_whole_sequential tables L _ laws generated_table_noEol
+    (dispatcher_no_newline tables dtables N generated_reply_noEol hN) st chunks
 
 /-- a frame: a body without newline, then the newline -/
 def IsFrame (f : Bytes) : Prop := ∃ body, f = body ++ [EOL] ∧ EOL ∉ body
@@ -513,21 +588,24 @@ theorem frames_flatten_isFraming : ∀ (done : List Bytes), (∀ f ∈ done, IsF
     · exact m l hl
 
 /-- **lines_whole** — any number of senders on one connection, each doing `send_lock.acquire();
-sendall(frame); release()` with `sendall` writing the frame in pieces of any size, in any
-interleaving: sender 0 is the handler thread answering an arbitrary byte stream, the others send
-well-formed events.  Whenever nobody is inside `sendall`, what the peer has received is a
-concatenation of whole frames — cut at its newlines it is exactly the frames completed so far, and each
-of them is one of the senders' frames; while a sender is inside `sendall`, it is that followed by a
-part of one frame.  No line is split by another. -/
+if self.running: sendall(frame); release()` with `sendall` writing the frame in pieces of any size, in any
+interleaving, and any `sendall` possibly raising after any number of its pieces (after which `self.running`
+is false and every sender drops its frames): sender 0 is the handler thread answering an arbitrary byte
+stream, the others send well-formed events.  Whenever nobody is inside `sendall`, what the peer has
+received, cut at its newlines, is exactly the frames completed so far — each of them one of the senders'
+frames — followed by a rest without newline, which is empty as long as no send has failed (afterwards it is
+the written part of the torn frame, and nothing is ever appended to it); while a sender is inside `sendall`, it
+is the completed frames followed by a part of one frame.  No line is split by another. -/
 theorem lines_whole (T : Tables) (L : Lib J) (d : Disp σ J) (laws : LibLaws L) (tf : TableNoEol T)
-    (hd : DispFits T L d) (st : σ) (chunks : List Bytes)
+    (hd : DispNoEol d) (st : σ) (chunks : List Bytes)
     (others : Nat → List (Triple J)) (hothers : ∀ i, ∀ m ∈ others i, WFTriple L m)
     (s : SockState)
     (hreach : SendReach (sockInit (fun i => if i = 0 then wire L (serve T L d [] st chunks).outs
                                               else (others i).map (encodeFrame L))) s) :
     (∀ f ∈ s.done, IsFrame f) ∧
     match s.lock with
-    | none => ∃ bodies, s.done = bodies.map (· ++ [EOL]) ∧ IsFraming s.out bodies []
+    | none => (∃ bodies, s.done = bodies.map (· ++ [EOL]) ∧ IsFraming s.out bodies s.tail)
+        ∧ (s.running = true → s.tail = [])
     | some i => ∃ w r, s.cur i = some (w, r) ∧ IsFrame (w ++ r) ∧ s.out = s.done.flatten ++ w := by
   have hq : ∀ i, ∀ f ∈ (fun i => if i = 0 then wire L (serve T L d [] st chunks).outs
       else (others i).map (encodeFrame L)) i, IsFrame f := by
@@ -549,52 +627,73 @@ theorem lines_whole (T : Tables) (L : Lib J) (d : Disp σ J) (laws : LibLaws L) 
   cases hlock : s.lock with
   | none =>
     rw [hlock] at hl
+    obtain ⟨_, hout, hrun, hfail⟩ := hl
     obtain ⟨bodies, hb, hfr⟩ := frames_flatten_isFraming s.done hdone
-    exact ⟨bodies, hb, by rw [hl.2]; exact hfr⟩
+    refine ⟨⟨bodies, hb, by rw [hout, hfr.1]; simp, hfr.2.1, ?_⟩, hrun⟩
+    cases hr : s.running with
+    | true => rw [hrun hr]; simp
+    | false =>
+      obtain ⟨r, hr0, body, hbody, hno⟩ := hfail hr
+      exact not_mem_of_proper_prefix hbody hr0 hno
   | some i =>
     rw [hlock] at hl
-    obtain ⟨_, w, r, hc, hp, hout⟩ := hl
+    obtain ⟨_, _, _, w, r, hc, hp, hout⟩ := hl
     exact ⟨w, r, hc, hp, hout⟩
 
 /-- **senders_keep_order** — in every reachable state of any number of senders (any queues, any
-interleaving of acquire / partial writes / release): the frames completed so far are `doneBy` without the
-sender numbers, and for every sender what it has completely sent (in the order the peer got it), the
-frame it is writing and what it still has to send are, in this order, exactly the frames it set out
-to send — nothing lost, duplicated or overtaken -/
+interleaving of acquire / partial writes / release / a `sendall` that raises / sends dropped after that): the
+frames completed so far are `doneBy` without the sender numbers, and for every sender what it has completely
+sent (in the order the peer got it), the frame it is writing, the frames that were not delivered and what
+it still has to send are, in this order, exactly the frames it set out to send — nothing duplicated or
+overtaken, and nothing lost as long as no send has failed -/
 theorem senders_keep_order (queue : Nat → List Bytes) (s : SockState) (hreach : SendReach (sockInit queue) s) :
-    s.done = s.doneBy.map Prod.snd ∧ ∀ i, sentBy s i ++ inFlight s i ++ s.queue i = queue i :=
+    s.done = s.doneBy.map Prod.snd ∧ (∀ i, sentBy s i ++ inFlight s i ++ s.lost i ++ s.queue i = queue i)
+    ∧ (s.running = true → ∀ i, s.lost i = []) :=
   orderInv_reach (fun _ => True) queue (fun _ _ _ => trivial) hreach
 
 /-- **replies_in_order_among_events** — the handler thread (sender 0) answering any byte stream in any
 segmentation, any other senders on the same connection: the frames of the handler thread reach the
 peer in the order of `serve` (so the replies are in request order, `one_reply_per_line`), however the
-events of the other threads are interleaved; once the handler thread has nothing left to send, the peer
-has got all of them -/
+events of the other threads are interleaved and also when a send of any thread fails in the middle: what the
+peer has got of them is always a prefix; as long as no send has failed, once the handler thread has
+nothing left to send the peer has got all of them -/
 theorem replies_in_order_among_events (T : Tables) (L : Lib J) (d : Disp σ J) (st : σ) (chunks : List Bytes)
     (others : Nat → List (Triple J)) (s : SockState)
     (hreach : SendReach (sockInit (fun i => if i = 0 then wire L (serve T L d [] st chunks).outs
                                               else (others i).map (encodeFrame L))) s) :
-    sentBy s 0 ++ inFlight s 0 ++ s.queue 0 = wire L (serve T L d [] st chunks).outs
-    ∧ (s.queue 0 = [] → s.cur 0 = none → sentBy s 0 = wire L (serve T L d [] st chunks).outs) := by
-  have h := (senders_keep_order _ s hreach).2 0
+    sentBy s 0 ++ inFlight s 0 ++ s.lost 0 ++ s.queue 0 = wire L (serve T L d [] st chunks).outs
+    ∧ sentBy s 0 <+: wire L (serve T L d [] st chunks).outs
+    ∧ (s.running = true → s.queue 0 = [] → s.cur 0 = none → sentBy s 0 = wire L (serve T L d [] st chunks).outs) := by
+  obtain ⟨_, hall, hlost⟩ := senders_keep_order _ s hreach
+  have h := hall 0
   simp only [↓reduceIte] at h
-  refine ⟨h, fun hq hc => ?_⟩
-  rw [← h, hq]
+  refine ⟨h, ⟨inFlight s 0 ++ s.lost 0 ++ s.queue 0, by rw [← h]; simp [List.append_assoc]⟩, fun hr hq hc => ?_⟩
+  rw [← h, hq, hlost hr 0]
   simp [inFlight, hc]
 
 /-- non-vacuity of the step relation: two senders, the second acquires while the first has not
 started; a state with the lock held and half a frame written is reachable -/
 example : ∃ s, SendReach (sockInit (fun i => if i = 0 then [[97, 10]] else if i = 1 then [[98, 99, 10]] else [])) s
     ∧ s.lock = some 1 ∧ s.out = [98] := by
-  refine ⟨_, .step _ _ (.step _ _ .start (.acquire _ 1 [98, 99, 10] [] rfl rfl)) (.write _ 1 [] [98, 99, 10] 1 (by simp [upd])), rfl, rfl⟩
+  refine ⟨_, .step _ _ (.step _ _ .start (.acquire _ 1 [98, 99, 10] [] rfl rfl rfl)) (.write _ 1 [] [98, 99, 10] 1 (by simp [upd])), rfl, rfl⟩
 
 /-- … and a state in which the second sender's frame has overtaken the first sender's: `doneBy` records who sent what -/
 example : ∃ s, SendReach (sockInit (fun i => if i = 0 then [[97, 10]] else if i = 1 then [[98, 10]] else [])) s
     ∧ s.doneBy = [(1, [98, 10]), (0, [97, 10])] ∧ s.out = [98, 10, 97, 10] ∧ sentBy s 0 = [[97, 10]] := by
   refine ⟨_, .step _ _ (.step _ _ (.step _ _ (.step _ _ (.step _ _ (.step _ _ .start
-    (.acquire _ 1 [98, 10] [] rfl rfl)) (.write _ 1 [] [98, 10] 2 (by simp [upd]))) (.release _ 1 [98, 10] (by simp [upd])))
-    (.acquire _ 0 [97, 10] [] rfl rfl)) (.write _ 0 [] [97, 10] 2 (by simp [upd]))) (.release _ 0 [97, 10] (by simp [upd])),
+    (.acquire _ 1 [98, 10] [] rfl rfl rfl)) (.write _ 1 [] [98, 10] 2 (by simp [upd]))) (.release _ 1 [98, 10] (by simp [upd])))
+    (.acquire _ 0 [97, 10] [] rfl rfl rfl)) (.write _ 0 [] [97, 10] 2 (by simp [upd]))) (.release _ 0 [97, 10] (by simp [upd])),
     by simp [sockInit], by simp [sockInit], by simp [sentBy, sockInit]⟩
+
+/-- … and a state after a failed send: sender 1 has written `b` of its frame `bc\n` when `sendall` raises; sender 0 then
+drops its frame.  The peer has the rest `b` and will never get anything else; both frames are recorded as lost. -/
+example : ∃ s, SendReach (sockInit (fun i => if i = 0 then [[97, 10]] else if i = 1 then [[98, 99, 10]] else [])) s
+    ∧ s.running = false ∧ s.lock = none ∧ s.out = [98] ∧ s.tail = [98] ∧ s.done = [] ∧ s.lost 0 = [[97, 10]]
+    ∧ s.lost 1 = [[98, 99, 10]] ∧ s.queue 0 = [] := by
+  refine ⟨_, .step _ _ (.step _ _ (.step _ _ (.step _ _ .start
+    (.acquire _ 1 [98, 99, 10] [] rfl rfl rfl)) (.write _ 1 [] [98, 99, 10] 1 (by simp [upd])))
+    (.fail _ 1 [98] [99, 10] (by simp [upd]) (by simp))) (.skip _ 0 [97, 10] [] rfl rfl rfl),
+    rfl, rfl, by simp [sockInit], rfl, by simp [sockInit], by simp [sockInit, upd], by simp [sockInit, upd], by simp [upd]⟩
 
 end whole
 
@@ -623,7 +722,7 @@ theorem peer_gone_prefix (T : Tables) (L : Lib J) (d : Disp σ J) (st : σ) (chu
   obtain ⟨h1, _, h3⟩ := serve_eq_serveLines T L d chunks [] st
   have hr : r = serveLinesF T L d ⟨n, true⟩ st ls := by
     simp only [r, ls, serveF_eq_serveLinesF, hl]
-  obtain ⟨a, b, c, e, f⟩ := serveLinesF_spec T L d ls n st
+  obtain ⟨a, b, c, e, f, _⟩ := serveLinesF_spec T L d ls n st
   have hfull : full.outs = (serveLines T L d st ls).1 := by simp only [full, ls, h1, hl]
   have hfst : full.st = stateAfter T L d st ls := by simp only [full, ls, h3, hl]
   rw [hr, hfull]
@@ -638,7 +737,7 @@ theorem peer_gone_prefix (T : Tables) (L : Lib J) (d : Disp σ J) (st : σ) (chu
 /-- what the peer got before it went away is sound: whole frames without a newline of their own, and
 the replies among them answer the first request lines, one each, in order -/
 theorem peer_gone_sound (T : Tables) (L : Lib J) (d : Disp σ J) (laws : LibLaws L) (tf : TableNoEol T)
-    (hd : DispFits T L d) (st : σ) (chunks : List Bytes) (n : Nat) :
+    (hd : DispNoEol d) (st : σ) (chunks : List Bytes) (n : Nat) :
     (∀ o ∈ (serveF T L d ⟨n, true⟩ [] st chunks).outs, EOL ∉ rstripSp (joined L o.msg))
     ∧ (replies (serveF T L d ⟨n, true⟩ [] st chunks).outs).map (·.req) <+: (splitLines chunks.flatten).lines := by
   obtain ⟨h, _⟩ := peer_gone_prefix T L d st chunks n
@@ -648,7 +747,118 @@ theorem peer_gone_sound (T : Tables) (L : Lib J) (d : Disp σ J) (laws : LibLaws
   rw [← h1]
   exact ((List.take_prefix n _).filter _).map _
 
+
+/-- **peer_gone_partial** — the `sendall` call number `n` (counted from 0; any `n`) raises after `k` bytes of
+its frame have gone out (a time-out with the output buffer full, a reset in the middle of a frame; any `k`
+short of the whole frame), any stream, segmentation and dispatcher: the torn frame is frame `n` of the run in
+which no send fails, and what the peer has received, cut at its newlines, is exactly the `n` frames delivered
+before — whole lines — followed by an unterminated rest without newline (the head of the torn frame).  Nothing
+follows the torn frame: `send_reply` does not touch the socket once a send has failed, whether or not the
+socket would accept data again. -/
+theorem peer_gone_partial (T : Tables) (L : Lib J) (d : Disp σ J) (laws : LibLaws L) (tf : TableNoEol T)
+    (hd : DispNoEol d) (st : σ) (chunks : List Bytes) (n k : Nat)
+    (hk : ∀ o, (serveF T L d ⟨n, true⟩ [] st chunks).torn = some o → k < (encodeFrame L o.msg).length) :
+    let r := serveF T L d ⟨n, true⟩ [] st chunks
+    let full := serve T L d [] st chunks
+    r.torn = full.outs[n]?
+    ∧ r.outs = full.outs.take n
+    ∧ IsFraming (received L r k) (r.outs.map (fun o => rstripSp (joined L o.msg)))
+        (match r.torn with
+          | some o => (encodeFrame L o.msg).take k
+          | none => []) := by
+  intro r full
+  have hf := splitLines_isFraming chunks.flatten
+  obtain ⟨hl, _⟩ := feed_lines_are_the_lines chunks _ _ hf
+  obtain ⟨h1, _, _⟩ := serve_eq_serveLines T L d chunks [] st
+  have hr : r = serveLinesF T L d ⟨n, true⟩ st (splitLines chunks.flatten).lines := by
+    simp only [r, serveF_eq_serveLinesF, hl]
+  have hfull : full.outs = (serveLines T L d st (splitLines chunks.flatten).lines).1 := by simp only [full, h1, hl]
+  obtain ⟨a, _, _, _, _, t⟩ := serveLinesF_spec T L d (splitLines chunks.flatten).lines n st
+  have htorn : r.torn = full.outs[n]? := by rw [hr, hfull]; exact t
+  have houts : r.outs = full.outs.take n := by rw [hr, hfull]; exact a
+  have hno := frames_no_newline T L d laws tf hd st chunks
+  refine ⟨htorn, houts, ?_, ?_, ?_⟩
+  · simp only [received, wire, encodeFrame, List.map_map, Function.comp_def]
+    cases r.torn <;> rfl
+  · intro l hlm
+    obtain ⟨o, ho, rfl⟩ := List.mem_map.1 hlm
+    rw [houts] at ho
+    exact hno o (List.mem_of_mem_take ho)
+  · cases ht : r.torn with
+    | none => simp
+    | some o =>
+      have hmem : o ∈ full.outs := by
+        rw [htorn] at ht
+        exact List.mem_of_getElem? ht
+      have hklt := hk o ht
+      simp only [encodeFrame, List.length_append, List.length_singleton] at hklt
+      simp only [encodeFrame]
+      rw [List.take_append_of_le_length (by omega)]
+      exact fun hm => hno o hmem (List.mem_of_mem_take hm)
+
 end gone
+
+/-! ## The text of an error report (`str(err)` in the `except` clauses of the request loop) -/
+
+section errtext
+
+/-- the usual error — a class registered for its SECoP name, raised with one argument, having passed at most
+one read / write wrapper: the text is the text of the argument alone -/
+theorem error_text_usual (e : ErrInfo) (a : ErrArg) (hr : e.registered = true) (hm : e.methods.length ≤ 1)
+    (ha : e.args = [a]) : errText e = a.str := by
+  have hd : e.methods.dropLast = [] := by
+    match hme : e.methods, hm with
+    | [], _ => rfl
+    | [_], _ => rfl
+    | _ :: _ :: _, h => simp at h
+  simp [errText, formatError, errPrefix, shownMethods, hr, hd, inMethods, strip, lstrip, rstrip, ha, excStr]
+
+/-- **error_text_any_args** — an error raised with any arguments (none, one, several; of any kind — only `str()` and
+`repr()` of the objects are used): the text is defined, it ends with `BaseException.__str__` of the arguments
+(nothing, the argument's own text, or the text of the tuple), and in front of that stands nothing or a prefix
+ending in `": "` that does not depend on the arguments -/
+theorem error_text_any_args (s : Bool) (e : ErrInfo) :
+    formatError s e = excStr e.args
+    ∨ ∃ p, p ≠ [] ∧ (∀ args, formatError s { e with args := args } = p ++ [58, 32] ++ excStr args) := by
+  by_cases h : errPrefix s e = []
+  · exact .inl (by simp [formatError, h])
+  · refine .inr ⟨errPrefix s e, h, fun args => ?_⟩
+    have : errPrefix s { e with args := args } = errPrefix s e := rfl
+    simp [formatError, this, h]
+
+/-- the three shapes of `BaseException.__str__` -/
+theorem exc_str_shapes :
+    excStr [] = []
+    ∧ (∀ a, excStr [a] = a.str)
+    ∧ (∀ a b rest, excStr (a :: b :: rest) = [40] ++ joinComma ((a :: b :: rest).map (·.repr)) ++ [41]) :=
+  ⟨rfl, fun _ => rfl, fun _ _ _ => rfl⟩
+
+/-- a class that is not the registered one for its name (`ProgrammingError`, `ConfigError`, a subclass defined by a driver)
+shows its Python class name in front -/
+theorem error_text_unregistered (s : Bool) (e : ErrInfo) (hr : e.registered = false) (hn : e.typeName ≠ []) :
+    e.typeName <+: formatError s e := by
+  have hp : errPrefix s e ≠ [] := by
+    simp only [errPrefix, hr]
+    intro h
+    exact hn (List.append_eq_nil_iff.1 h).1
+  simp only [formatError, hp, ↓reduceIte]
+  simp only [errPrefix, hr, Bool.false_eq_true, ↓reduceIte, List.append_assoc]
+  exact List.prefix_append _ _
+
+-- `CommunicationFailedError(OSError(5, 'x'))` raised in `write_target` of module `m`: the text of the OSError
+example : errText ⟨true, [67], [[109, 46, 119]], [⟨[91, 53, 93, 32, 120], [79, 40, 53, 41]⟩]⟩ = [91, 53, 93, 32, 120] := by
+  decide
+-- `HardwareError('a', 7)`: the text of the tuple `('a', 7)`
+example : errText ⟨true, [72], [], [⟨[97], [39, 97, 39]⟩, ⟨[55], [55]⟩]⟩ = [40, 39, 97, 39, 44, 32, 55, 41] := by decide
+-- `HardwareError()`: empty text
+example : errText ⟨true, [72], [], []⟩ = [] := by decide
+-- `ProgrammingError(3)` that has passed `m.read_v` and `n.read_w`: `ProgrammingErrorin m.read_v: 3` (the quirk)
+example : errText ⟨false, [80], [[109], [110]], [⟨[51], [51]⟩]⟩ = [80, 105, 110, 32, 109, 58, 32, 51] := by decide
+example : ∃ (e : ErrInfo) (a : ErrArg), e.registered = true ∧ e.methods.length ≤ 1 ∧ e.args = [a] :=
+  ⟨⟨true, [72], [[109]], [⟨[120], [39, 120, 39]⟩]⟩, ⟨[120], [39, 120, 39]⟩, rfl, by decide, rfl⟩
+example : ∃ e : ErrInfo, e.registered = false ∧ e.typeName ≠ [] := ⟨⟨false, [80], [], []⟩, rfl, by decide⟩
+
+end errtext
 
 /-! ## Strict JSON (recorded finding `C07:strict_json:nan-token`) -/
 
@@ -891,5 +1101,81 @@ example :
      (serveF tables L0 d0 ⟨4, true⟩ [] () [[120, 10, 10, 121, 10]]).outs.length,
      (serveF tables L0 d0 ⟨4, true⟩ [] () [[120, 10, 10, 121, 10]]).done,
      (serveF tables L0 d0 ⟨4, true⟩ [] () [[120, 10, 10, 121, 10]]).sock) = (14, 4, 2, ⟨0, false⟩) := by decide
+
+/-- non-vacuity of `peer_gone_partial`: the same run when the fifth `sendall` writes 3 bytes of its frame `_ 4 f`
+and raises: the peer has four whole lines and the rest `_ 4`; the monitor accepts that, and rejects what a peer
+receives when the loop goes on sending after the torn frame (`_ 4` directly followed by the next frames) -/
+example :
+    ((serveF tables L0 d0 ⟨4, true⟩ [] () [[120, 10, 10, 121, 10]]).torn.map (fun o => encodeFrame L0 o.msg),
+     (splitLines (received L0 (serveF tables L0 d0 ⟨4, true⟩ [] () [[120, 10, 10, 121, 10]]) 3)).lines.length,
+     (splitLines (received L0 (serveF tables L0 d0 ⟨4, true⟩ [] () [[120, 10, 10, 121, 10]]) 3)).rest)
+    = (some [95, 32, 52, 32, 102, 10], 4, [95, 32, 52]) := by decide
+
+example : ∀ o, (serveF tables L0 d0 ⟨4, true⟩ [] () [[120, 10, 10, 121, 10]]).torn = some o
+    → 3 < (encodeFrame L0 o.msg).length := by decide
+
+-- requests `ping a`, `ping b`; received `pong a\n` and the head `pon` of the second reply: accepted
+example : judgeReceived tables [112, 105, 110, 103, 32, 97, 10, 112, 105, 110, 103, 32, 98, 10] [112, 111, 110, 103, 32, 97, 10, 112, 111, 110] [(true, true)] = .ok := by decide
+-- the loop went on after the torn frame: `pon` directly followed by the reply that was sent next
+example : judgeReceived tables [112, 105, 110, 103, 32, 97, 10, 112, 105, 110, 103, 32, 98, 10, 112, 105, 110, 103, 32, 99, 10] [112, 111, 110, 103, 32, 97, 10, 112, 111, 110, 112, 111, 110, 103, 32, 99, 10] [(true, true), (true, true)]
+    = .misfit 1 := by decide
+-- torn inside the data part: the line fits by action and specifier, its data part is no JSON (flag of the harness)
+example : judgeReceived tables [112, 105, 110, 103, 32, 97, 10, 112, 105, 110, 103, 32, 98, 10] [112, 111, 110, 103, 32, 97, 32, 91, 110, 117, 112, 111, 110, 103, 32, 98, 32, 91, 110, 117, 108, 108, 93, 10] [(true, false)]
+    = .notStrict 0 := by decide
+
+/-! ## Non-vacuity: `DispNoEol`, and why it replaces `DispFits` in the whole-line theorems -/
+
+example : DispNoEol d0 := dispFits_noEol d0_fits
+
+/-- a node that sends one update of `m` during every request -/
+def N1 : NodeIf Nat Unit Bool := { N0 with events := fun _ _ _ => [⟨[117, 112, 100, 97, 116, 101], some [109], some true⟩] }
+
+example : NodeEventsNoEol N1 := by
+  intro nu k t m hm
+  simp only [N1, List.mem_singleton] at hm
+  subst hm
+  exact ⟨by decide, by decide⟩
+
+/-- `ping <DEL>` is answered `pong <DEL>` by the dispatcher (model and real one): a specifier that is no `Token`, so the
+reply is no `WFTriple` and the dispatcher does not satisfy `DispFits` on this request — `DispNoEol` covers it -/
+example :
+    (match (dispatch tables dtables N1 (0, ()) ⟨[112, 105, 110, 103], some [127], none⟩).1.res with
+      | .ok r => r.action == [112, 111, 110, 103] && r.spec == some [127]
+      | _ => false) = true
+    ∧ ¬ WFTriple L0 ⟨[112, 111, 110, 103], some [127], some false⟩
+    ∧ NoEolTriple (⟨[112, 111, 110, 103], some [127], some false⟩ : Triple Bool) := by
+  refine ⟨by decide, fun h => ?_, by decide, by decide⟩
+  have := (h.2 [127] rfl).1
+  revert this
+  decide
+
+/-- the stream `ping <DEL>\nread m\n` in two chunks with the dispatcher model over `N1`: four frames (each request
+preceded by the update), cut at the newlines exactly these -/
+example : (wire L0 (serve tables L0 (dispatch tables dtables N1) [] (0, ()) [[112, 105, 110, 103, 32, 127, 10, 114, 101], [97, 100, 32, 109, 10]]).outs)
+    = [[117, 112, 100, 97, 116, 101, 32, 109, 32, 116, 10], [112, 111, 110, 103, 32, 127, 32, 102, 10],
+       [117, 112, 100, 97, 116, 101, 32, 109, 32, 116, 10], [114, 101, 112, 108, 121, 32, 109, 32, 116, 10]] := by decide
+
+/-- `DispAnswers` / `NodeClasses` are satisfiable: the refusing dispatcher, and the node `N1` (its only error class is `NoSuchModule`) -/
+example : DispAnswers tables d0 := dispFits_answers d0_fits
+
+example : NodeClasses tables.errorClasses N1 where
+  describe := by
+    intro s c h
+    simp only [N1, N0] at h
+    split at h
+    · cases h
+    · split at h
+      · cases h
+      · cases h; decide
+  activate := by
+    intro s c h
+    simp only [N1, N0] at h
+    split at h
+    · cases h
+    · cases h; decide
+  logging := by intro s d c h; simp [N1, N0] at h
+  read := by intro nu m p c h; simp [N1, N0] at h
+  change := by intro nu m p v c h; simp [N1, N0] at h
+  exec := by intro nu m p v c h; simp [N1, N0] at h
 
 end Frappy.Props.C07
